@@ -36,8 +36,12 @@ extra="""%fn read_string async
             rstate_eq(final(self), old(self)),
     %fsubst /unsafe \\{ String::from_utf8_unchecked\\(v\\) \\}/ => vstring_from_utf8_unchecked(v)
 """
+# the sync unit has its own read_string entry (same contract, different body rewrites): drop it, use `extra`
+a=out.index("%fn read_string async")
+b=out.index("%fn", a+5)
+out=out[:a]+out[b:]
 out=out.replace("%fn read_list_begin async", extra+"%fn read_list_begin async",1)
 a=out.index("%fn read_bytes_vec async")
 b=out.index("%fn", a+5)
-out=out[:a]+out[a:b].rstrip()+"\n    %fsubst /vec!\\[0; size\\]/ => valloc_zeroed_avail(size, Ghost(self.reader.stream().len()))\n"+out[b:]
+out=out[:a]+out[a:b].rstrip()+"\n    %fsubst /rw_ext::read_exact_vec/ => read_exact_vec\n"+out[b:]
 open('/verif/vf/units/_async_compact_reader.vu','w').write(out)
